@@ -197,7 +197,7 @@ func verifyPublicKeyEdDSA(mesage []byte, signature []byte, key jwk.Key) (bool, e
 	switch okpKey.Crv() {
 	case jwa.Ed25519:
 		ed25519Key := ed25519.PublicKey{}
-		if okpKey.Raw(&ed25519Key) != nil {
+		if okpKey.Raw(&ed25519Key) != nil || len(ed25519Key) != ed25519.PublicKeySize {
 			return false, ErrKeyTypeMismatch
 		}
 		return ed25519.Verify(ed25519Key, mesage, signature), nil
